@@ -17,7 +17,7 @@ from . import common
 
 ID = "C13"
 RULE = (
-    "cases = perturbed droplets (2-D, 3-D, axisymmetric) with radius log-uniform over 0.1..10 "
+    "cases = perturbed droplets (2-D, 3-D, axisymmetric) with radius log-uniform over 0.1..10 (a quarter over 1e-9..1e9) "
     "(never only 1), random centres, 1..4 simultaneously non-zero modes up to degree 4 (2-D: "
     "harmonics 1..4, sin and cos), sparse amplitude vectors with exact zeros before non-zero "
     "modes; 'shape' cases use amplitudes of size 0.02..0.3 (volume, surface, outline, "
@@ -71,6 +71,11 @@ def gen(rng, kind, tier):
     dim = 2 if cls == "PerturbedDroplet2D" else 3
     R = float(10 ** rng.uniform(-1, 1))
     pos = [float(x) for x in rng.normal(0, 5, dim)]
+    if rng.random() < 0.25:
+        # other units of length: nanometre-sized and kilometre-sized droplets (the position scales along: outline
+        # points of a droplet that sits 10^9 radii away from the origin carry no information about its shape)
+        R = float(10 ** rng.uniform(-9, 9))
+        pos = [x * R for x in pos]
     if cls == "PerturbedDroplet3DAxisSym":
         pos[0] = pos[1] = 0.0
     if kind == "shape":
